@@ -65,8 +65,8 @@ theorem decrypt_slice {Key : Type} (ks : Key → Nat → Block16) (key : Key) (p
     decryptAt ks key off (((encrypt ks key pt).drop off).take n) = (pt.drop off).take n := by
   rw [decryptAt_eq, encrypt_slice]
   apply xor_keystream_cancel
-  · simp; omega
-  · simp; omega
+  · simp
+  · simp
 
 @[simp] theorem length_encrypt {Key : Type} (ks : Key → Nat → Block16) (key : Key) (pt : Bytes) :
     (encrypt ks key pt).length = pt.length := by simp [encrypt]
@@ -138,5 +138,295 @@ theorem mapE_ok {α β : Type} (f : α → Except Err β) (g : α → β) (l : L
   | nil => rfl
   | cons x xs ih =>
     simp only [mapE, h x List.mem_cons_self, ih (fun y hy => h y (List.mem_cons_of_mem _ hy)), List.map_cons]
+
+end Tahoe.Immutable.Pipeline
+
+namespace Tahoe.Immutable.Pipeline
+open Tahoe.Immutable Tahoe.Immutable.Sizes
+
+theorem getD_map_range {α : Type} (f : Nat → α) (i m : Nat) (h : i < m) (d : α) :
+    ((List.range m).map f).getD i d = f i := by
+  simp [List.getD_eq_getElem?_getD, h]
+
+/-! ### what the encoder feeds to the codec, segment by segment -/
+
+/-- the `k` pieces of segment `i` when `m` full segments precede the tail -/
+def pcs (e : EncSizes) (m : Nat) (rest : Bytes) (i : Nat) : List Bytes :=
+  if i < m then chop e.blockSize ((rest.drop (i * e.segmentSize)).take e.segmentSize)
+  else chop e.tailBlockSize (rest.drop (i * e.segmentSize) ++ List.replicate (e.paddedTailSize - e.tailSize) (0 : UInt8))
+
+section
+variable {c : Codec} {k n size : Nat} {e : EncSizes}
+
+theorem block_pos (hc : Consistent size k e) : 0 < e.blockSize := by
+  have h1 := hc.block_mul; have h2 := hc.seg_pos
+  rcases Nat.eq_zero_or_pos e.blockSize with h | h
+  · rw [h, Nat.zero_mul] at h1; omega
+  · exact h
+
+theorem tail_block_pos (hc : Consistent size k e) : 0 < e.tailBlockSize := by
+  have h1 := hc.tail_block_mul; have h2 := hc.tail_pos; have h3 := hc.tail_le_padded
+  rcases Nat.eq_zero_or_pos e.tailBlockSize with h | h
+  · rw [h, Nat.zero_mul] at h1; omega
+  · exact h
+
+theorem encodeSegment_full (hc : Consistent size k e) (rest : Bytes) (h : e.segmentSize ≤ rest.length) :
+    encodeSegment c k n rest e.blockSize false
+      = .ok (c.encode k n (chop e.blockSize (rest.take e.segmentSize)), rest.drop e.segmentSize) := by
+  have hkb : k * e.blockSize = e.segmentSize := by rw [Nat.mul_comm]; exact hc.block_mul
+  have hlen : (rest.take e.segmentSize).length = k * e.blockSize := by simp [hkb]; omega
+  have hp := chop_piece_length (block_pos hc) hlen
+  unfold encodeSegment gatherData
+  simp only [hkb, Bool.not_false, Bool.true_and, Bool.false_and]
+  have : ((rest.take e.segmentSize).length != e.segmentSize) = false := by simp; omega
+  simp only [this, Bool.false_eq_true, if_false]
+  have hany : (chop e.blockSize (rest.take e.segmentSize)).any (fun ch => ch.length != e.blockSize) = false := by
+    rw [List.any_eq_false]
+    intro x hx
+    simp [hp x hx]
+  simp [hany]
+
+theorem encodeSegment_tail (hc : Consistent size k e) (rest : Bytes) (h : rest.length = e.tailSize) :
+    ∃ r, encodeSegment c k n rest e.tailBlockSize true
+      = .ok (c.encode k n (chop e.tailBlockSize (rest ++ List.replicate (e.paddedTailSize - e.tailSize) (0 : UInt8))), r) := by
+  have hkb : k * e.tailBlockSize = e.paddedTailSize := by rw [Nat.mul_comm]; exact hc.tail_block_mul
+  have hle := hc.tail_le_padded
+  have htake : rest.take e.paddedTailSize = rest := List.take_of_length_le (by omega)
+  have hlen : (rest ++ List.replicate (e.paddedTailSize - e.tailSize) (0 : UInt8)).length = k * e.tailBlockSize := by
+    simp [hkb, h]; omega
+  have hp := chop_piece_length (tail_block_pos hc) hlen
+  have hany : (chop e.tailBlockSize (rest ++ List.replicate (e.paddedTailSize - e.tailSize) (0 : UInt8))).any
+      (fun ch => ch.length != e.tailBlockSize) = false := by
+    rw [List.any_eq_false]
+    intro x hx
+    simp [hp x hx]
+  refine ⟨rest.drop e.paddedTailSize, ?_⟩
+  unfold encodeSegment gatherData
+  simp only [hkb, htake, Bool.not_true, Bool.false_and, Bool.false_eq_true, if_false, Bool.true_and]
+  rw [h]
+  by_cases hlt : e.tailSize < e.paddedTailSize
+  · simp only [hlt, decide_true, if_true, hany, Bool.false_eq_true, if_false]
+  · have : e.paddedTailSize - e.tailSize = 0 := by omega
+    rw [this] at hany ⊢
+    simp only [List.replicate_zero, List.append_nil] at hany ⊢
+    simp only [hlt, decide_false, Bool.false_eq_true, if_false, hany]
+
+theorem encodeSegments_spec (hc : Consistent size k e) (m : Nat) (rest : Bytes)
+    (h : rest.length = m * e.segmentSize + e.tailSize) :
+    encodeSegments c k n e m rest = .ok ((List.range (m + 1)).map (fun i => c.encode k n (pcs e m rest i))) := by
+  induction m generalizing rest with
+  | zero =>
+    obtain ⟨r, hr⟩ := encodeSegment_tail (c := c) (n := n) hc rest (by simpa using h)
+    simp [encodeSegments, hr, pcs]
+  | succ m ih =>
+    have hge : e.segmentSize ≤ rest.length := by rw [h, Nat.add_mul]; omega
+    have hrest : (rest.drop e.segmentSize).length = m * e.segmentSize + e.tailSize := by
+      simp [h, Nat.add_mul]; omega
+    simp only [encodeSegments, encodeSegment_full hc rest hge, ih _ hrest]
+    rw [List.range_succ_eq_map (n := m + 1), List.map_cons, List.map_map]
+    congr 1
+    congr 1
+    · simp [pcs]
+    · apply List.map_congr_left
+      intro i _
+      simp only [Function.comp, pcs, Nat.succ_eq_add_one, Nat.add_lt_add_iff_right, List.drop_drop]
+      have : e.segmentSize + i * e.segmentSize = (i + 1) * e.segmentSize := by rw [Nat.add_mul]; omega
+      rw [this]
+
+/-- facts about the pieces of segment `i ≤ m` -/
+theorem pcs_facts (hc : Consistent size k e) (m : Nat) (rest : Bytes)
+    (h : rest.length = m * e.segmentSize + e.tailSize) (i : Nat) (hi : i ≤ m) :
+    (pcs e m rest i).length = k ∧
+    (∀ p ∈ pcs e m rest i, p.length = if i < m then e.blockSize else e.tailBlockSize) ∧
+    (pcs e m rest i).flatten =
+      (if i < m then (rest.drop (i * e.segmentSize)).take e.segmentSize
+       else rest.drop (i * e.segmentSize) ++ List.replicate (e.paddedTailSize - e.tailSize) (0 : UInt8)) := by
+  have hkb : k * e.blockSize = e.segmentSize := by rw [Nat.mul_comm]; exact hc.block_mul
+  have hkt : k * e.tailBlockSize = e.paddedTailSize := by rw [Nat.mul_comm]; exact hc.tail_block_mul
+  by_cases him : i < m
+  · simp only [pcs, him, if_true]
+    have hlen : ((rest.drop (i * e.segmentSize)).take e.segmentSize).length = k * e.blockSize := by
+      simp only [List.length_take, List.length_drop, h, hkb]
+      have : (i + 1) * e.segmentSize ≤ m * e.segmentSize := Nat.mul_le_mul_right _ him
+      rw [Nat.add_mul] at this
+      omega
+    exact ⟨chop_length (block_pos hc) hlen, chop_piece_length (block_pos hc) hlen, chop_flatten (block_pos hc) hlen⟩
+  · have : i = m := by omega
+    subst this
+    simp only [pcs, Nat.lt_irrefl, if_false]
+    have hlen : (rest.drop (i * e.segmentSize) ++ List.replicate (e.paddedTailSize - e.tailSize) (0 : UInt8)).length
+        = k * e.tailBlockSize := by
+      simp only [List.length_append, List.length_drop, List.length_replicate, h, hkt]
+      have := hc.tail_le_padded
+      omega
+    exact ⟨chop_length (tail_block_pos hc) hlen, chop_piece_length (tail_block_pos hc) hlen,
+      chop_flatten (tail_block_pos hc) hlen⟩
+
+end
+end Tahoe.Immutable.Pipeline
+
+namespace Tahoe.Immutable.Pipeline
+open Tahoe.Immutable Tahoe.Immutable.Sizes
+
+section
+variable {c : Codec} {k n size : Nat} {e : EncSizes}
+
+/-- the segment list produced for ciphertext `ct` -/
+def segsOf (c : Codec) (k n : Nat) (e : EncSizes) (m : Nat) (ct : Bytes) : List (List Bytes) :=
+  (List.range (m + 1)).map (fun i => c.encode k n (pcs e m ct i))
+
+theorem fetchBlock_uploaded (hlaw : c.Lawful k n) (hc : Consistent size k e) (m : Nat) (hm : e.numSegments = m + 1)
+    (ct : Bytes) (hct : ct.length = m * e.segmentSize + e.tailSize) (s : Nat) (hs : s ≤ m) (j : Nat) (hj : j < n) :
+    fetchBlock (((List.range n).map (shareData (segsOf c k n e m ct))).getD j []) e.toDl s
+      = (c.encode k n (pcs e m ct s)).getD j [] := by
+  rw [getD_map_range _ _ _ hj]
+  unfold fetchBlock shareData
+  have hlenblk : ∀ i, i ≤ m → ((c.encode k n (pcs e m ct i)).getD j []).length
+      = if i < m then e.blockSize else e.tailBlockSize := by
+    intro i hi
+    obtain ⟨h1, h2, _⟩ := pcs_facts hc m ct hct i hi
+    have hl := hlaw.length_encode _ h1
+    have hb := hlaw.block_length _ _ h1 h2
+    apply hb
+    rw [List.getD_eq_getElem?_getD, List.getElem?_eq_getElem (by omega)]
+    simp
+  have hget : ∀ i, i ≤ m → ((segsOf c k n e m ct).map (fun blocks => blocks.getD j [])).getD i []
+      = (c.encode k n (pcs e m ct i)).getD j [] := by
+    intro i hi
+    unfold segsOf
+    rw [List.map_map, getD_map_range _ _ _ (by omega)]
+    rfl
+  rw [← hget s hs]
+  apply flatten_index
+  · simp [segsOf]; omega
+  · intro i hi
+    rw [hget i (by omega), hlenblk i (by omega), if_pos (by omega)]
+    rfl
+  · rw [hget s hs, hlenblk s hs]
+    simp only [Layout.readBlockLen, EncSizes.toDl, hm, Nat.add_sub_cancel]
+    by_cases h : s = m
+    · simp [h]
+    · have : s < m := by omega
+      simp [h, this]
+
+theorem decodeSegment_uploaded (hlaw : c.Lawful k n) (hc : Consistent size k e) (m : Nat) (hm : e.numSegments = m + 1)
+    (ct : Bytes) (hct : ct.length = m * e.segmentSize + e.tailSize) (s : Nat) (hs : s ≤ m)
+    (ids : List Nat) (hv : ValidIds k n ids) :
+    decodeSegment c k n e.toDl e.segmentSize ((List.range n).map (shareData (segsOf c k n e m ct))) ids s
+      = .ok ((ct.drop (s * e.segmentSize)).take e.segmentSize) := by
+  obtain ⟨hidl, hnd, hlt⟩ := hv
+  obtain ⟨h1, h2, h3⟩ := pcs_facts hc m ct hct s hs
+  have hblocks : ids.map (fun i => (i, fetchBlock (((List.range n).map (shareData (segsOf c k n e m ct))).getD i []) e.toDl s))
+      = ids.map (fun i => (i, (c.encode k n (pcs e m ct s)).getD i [])) := by
+    apply List.map_congr_left
+    intro i hi
+    rw [fetchBlock_uploaded hlaw hc m hm ct hct s hs i (hlt i hi)]
+  have hl := hlaw.length_encode _ h1
+  have hb := hlaw.block_length _ _ h1 h2
+  have hdec := hlaw.mds _ _ ids h1 h2 hidl hnd hlt
+  unfold decodeSegment
+  simp only [hblocks, hdec, h3]
+  have htail : (s == e.toDl.numSegments - 1) = decide (s = m) := by
+    simp only [EncSizes.toDl, hm, Nat.add_sub_cancel]
+    by_cases h : s = m <;> simp [h]
+  simp only [htail]
+  have hany : (ids.map (fun i => (i, (c.encode k n (pcs e m ct s)).getD i []))).any
+      (fun b => b.2.length != if decide (s = m) = true then e.toDl.tailBlockSize else e.toDl.blockSize) = false := by
+    rw [List.any_eq_false]
+    intro x hx
+    simp only [List.mem_map] at hx
+    obtain ⟨i, hi, rfl⟩ := hx
+    have : ((c.encode k n (pcs e m ct s)).getD i []).length = if s < m then e.blockSize else e.tailBlockSize := by
+      apply hb
+      rw [List.getD_eq_getElem?_getD, List.getElem?_eq_getElem (by have := hlt i hi; omega)]
+      simp
+    simp only [this, EncSizes.toDl]
+    by_cases h : s = m
+    · simp [h]
+    · have : s < m := by omega
+      simp [h, this]
+  simp only [hany, Bool.false_eq_true, if_false]
+  by_cases h : s = m
+  · subst h
+    simp only [Nat.lt_irrefl, if_false, decide_true, if_true, EncSizes.toDl]
+    have hdl : (ct.drop (s * e.segmentSize)).length = e.tailSize := by simp [hct]
+    have hlen : (ct.drop (s * e.segmentSize) ++ List.replicate (e.paddedTailSize - e.tailSize) (0 : UInt8)).length
+        = e.paddedTailSize := by
+      have := hc.tail_le_padded
+      simp [hdl]; omega
+    simp only [hlen, bne_self_eq_false, Bool.false_eq_true, if_false]
+    congr 1
+    rw [← hdl, List.take_left]
+    rw [List.take_of_length_le]
+    have := hc.tail_le_seg
+    omega
+  · have hlt' : s < m := by omega
+    simp only [hlt', if_true, h, decide_false, Bool.false_eq_true, if_false]
+    have hlen : ((ct.drop (s * e.segmentSize)).take e.segmentSize).length = e.segmentSize := by
+      simp only [List.length_take, List.length_drop, hct]
+      have : (s + 1) * e.segmentSize ≤ m * e.segmentSize := Nat.mul_le_mul_right _ hlt'
+      rw [Nat.add_mul] at this
+      omega
+    simp [hlen]
+
+end
+end Tahoe.Immutable.Pipeline
+
+namespace Tahoe.Immutable.Pipeline
+open Tahoe.Immutable Tahoe.Immutable.Sizes
+
+/-- the shape of a successful upload -/
+theorem upload_ok {Key : Type} (ks : Key → Nat → Block16) (c : Codec) (key : Key) (pt : Bytes) (k n maxSeg : Nat)
+    (hk : 0 < k) (hmax : 0 < maxSeg) (hpt : 0 < pt.length) :
+    ∃ (e : EncSizes) (m : Nat),
+      Consistent pt.length k e ∧ e.numSegments = m + 1 ∧
+      segSize k maxSeg pt.length = .ok e.segmentSize ∧
+      encoderSizes pt.length k e.segmentSize = .ok e ∧
+      calculateSizes pt.length k e.segmentSize = .ok e.toDl ∧
+      (encrypt ks key pt).length = m * e.segmentSize + e.tailSize ∧
+      upload ks c key pt k n maxSeg = .ok
+        { key := key, k := k, n := n, size := pt.length
+          ueb := { size := pt.length, segmentSize := e.segmentSize, numSegments := e.numSegments,
+                   neededShares := k, totalShares := n, codecSize := e.segmentSize,
+                   tailCodecSize := e.paddedTailSize }
+          shares := (List.range n).map (shareData (segsOf c k n e m (encrypt ks key pt))) } := by
+  obtain ⟨seg, hseg, hsegpos, hsegmod, _, _⟩ := segSize_ok (maxSeg := maxSeg) hk hmax hpt
+  obtain ⟨e, henc⟩ : ∃ e, encoderSizes pt.length k seg = .ok e := ⟨_, encoderSizes_ok (size := pt.length) hk hsegpos hsegmod⟩
+  obtain ⟨hc, hes, _, _⟩ := consistent_of_ok hpt henc
+  have hnp := hc.nseg_pos
+  refine ⟨e, e.numSegments - 1, hc, by omega, by rw [hes]; exact hseg, by rw [hes]; exact henc, ?_, ?_, ?_⟩
+  · rw [calculateSizes_eq_encoder, hes, henc]; rfl
+  · rw [length_encrypt]; exact hc.size_split.symm
+  · have hlen : (encrypt ks key pt).length = (e.numSegments - 1) * e.segmentSize + e.tailSize := by
+      rw [length_encrypt]; exact hc.size_split.symm
+    unfold upload
+    simp only [hseg, henc, encodeSegments_spec hc _ _ hlen]
+    rfl
+
+end Tahoe.Immutable.Pipeline
+
+namespace Tahoe.Immutable.Pipeline
+open Tahoe.Immutable Tahoe.Immutable.Sizes
+
+/-- every segment request on an uploaded file is answered with that segment's ciphertext -/
+theorem getSegment_uploaded {Key : Type} (ks : Key → Nat → Block16) (c : Codec) (key : Key) (pt : Bytes)
+    (k n : Nat) (e : EncSizes) (m : Nat) (hlaw : c.Lawful k n) (hc : Consistent pt.length k e)
+    (hm : e.numSegments = m + 1) (hct : (encrypt ks key pt).length = m * e.segmentSize + e.tailSize)
+    (pick : Nat → List Nat) (hpick : ∀ s, ValidIds k n (pick s)) (ueb : UEB) (hueb : ueb.segmentSize = e.segmentSize)
+    (s : Nat) :
+    getSegment c { key := key, k := k, n := n, size := pt.length, ueb := ueb,
+                   shares := (List.range n).map (shareData (segsOf c k n e m (encrypt ks key pt))) }
+        e.toDl pick s
+      = if s ≤ m then .ok (s * e.segmentSize, ((encrypt ks key pt).drop (s * e.segmentSize)).take e.segmentSize)
+        else .error .badSegment := by
+  unfold getSegment
+  simp only [EncSizes.toDl, hm, hueb]
+  by_cases hs : s ≤ m
+  · have h1 : ¬ (s ≥ m + 1) := by omega
+    have hd := decodeSegment_uploaded hlaw hc m hm _ hct s hs (pick s) (hpick s)
+    simp only [EncSizes.toDl, hm] at hd
+    simp only [h1, if_false, hs, if_true, hd]
+  · have h1 : s ≥ m + 1 := by omega
+    simp only [h1, if_true, hs, if_false]
 
 end Tahoe.Immutable.Pipeline
